@@ -476,7 +476,16 @@ def check_property(root, pid, tier, seed):
                 scope = u.get("scope")
                 for fl in r["failures"]:
                     fl["unit"] = u["unit"]
-                    if scope is not None and fl.get("function") is not None and fl.get("function") not in scope:
+                    # an obligation tagged [Cxx] in the overlay belongs to exactly those properties
+                    tags = set(re.findall(r"\[(C\d+)\]", fl.get("unit_text", "") + " " + " ".join(str(l[2]) for l in fl.get("labels", []))))
+                    fl["tags"] = sorted(tags)
+                    if tags and pid not in tags:
+                        out_of_scope.append("%s::%s — %s [tagged %s]" % (u["unit"], fl.get("function"), fl["message"], ",".join(sorted(tags))))
+                        continue
+                    if not tags and P.get("tag_only"):
+                        out_of_scope.append("%s::%s — %s [untagged; this property is raised only by obligations tagged %s]" % (u["unit"], fl.get("function"), fl["message"], pid))
+                        continue
+                    if not tags and scope is not None and fl.get("function") is not None and fl.get("function") not in scope:
                         # a function of this unit that carries another property: not this property's obligation
                         out_of_scope.append("%s::%s — %s" % (u["unit"], fl.get("function"), fl["message"]))
                         continue
